@@ -442,6 +442,7 @@ def decide(prop, spec, tier, seed, workdir, t0, args):
         import registry
         rdir = os.path.join(VERIF, 'replays', prop) if not os.environ.get('VERIF_NO_EVIDENCE') else os.path.join(workdir, 'replays')
         os.makedirs(rdir, exist_ok=True)
+        n_playbacks = 0
         for o, fails in violations:
             rp = os.path.join(rdir, re.sub(r'[^A-Za-z0-9_.-]', '_', o['name']) + '.json')
             doc = dict(property=prop, obligation=o['name'], backend=o['backend'], repo=repo_state(),
@@ -449,7 +450,11 @@ def decide(prop, spec, tier, seed, workdir, t0, args):
             no_input = True
             if o['backend'].startswith('kani'):
                 h = [h for h in registry.HARNESSES if h['name'] == o['name'][2:]][0]
-                pb = kani_playback(h, snap, workdir)
+                n_playbacks += 1
+                if n_playbacks <= 2:   # concrete playback costs a CBMC re-run + native build: first two failures only
+                    pb = kani_playback(h, snap, workdir)
+                else:
+                    pb = dict(error='concrete playback skipped (more than two failed harnesses in this run; see the first two replay files)')
                 doc['concrete_playback'] = pb
                 if pb.get('values'):
                     no_input = False
